@@ -501,6 +501,70 @@ fn c01_k1_pawn_moves_complete_2_unstubbed() {
 }
 
 // =====================================================================================================================
+// K0: compute_psuedo_legal_moves_into runs the six generators once each on the same position, after clearing the list
+// =====================================================================================================================
+
+static mut SEQ: [u8; 32] = [0; 32]; // SEQ[0] = number of generator calls, SEQ[1..] = which generator (1 pawn .. 6 queen)
+
+macro_rules! recording_generator {
+    ($name:ident, $tag:expr) => {
+        fn $name<'a>(_h: GameStateHelper<'a>, result: &mut Vec<PseudoLegalMove>) {
+            unsafe {
+                let n = SEQ[0] as usize;
+                // every generator sees what the earlier ones produced (nothing was dropped) ...
+                assert!(result.len() == n);
+                if n < 8 {
+                    SEQ[1 + n] = $tag;
+                }
+                SEQ[0] += 1;
+            }
+            // ... and appends its own moves (one marker move here)
+            result.push(PseudoLegalMove::new(Move::by_castling(Color::White, Side::King)));
+        }
+    };
+}
+recording_generator!(rec_pawn, 1);
+recording_generator!(rec_knight, 2);
+recording_generator!(rec_king, 3);
+recording_generator!(rec_bishop, 4);
+recording_generator!(rec_rook, 5);
+recording_generator!(rec_queen, 6);
+
+#[kani::proof]
+#[kani::unwind(9)]
+#[kani::stub(crate::movegen::MoveGenerator::compute_pawn_moves, rec_pawn)]
+#[kani::stub(crate::movegen::MoveGenerator::compute_knight_moves, rec_knight)]
+#[kani::stub(crate::movegen::MoveGenerator::compute_king_moves, rec_king)]
+#[kani::stub(crate::movegen::MoveGenerator::compute_bishop_moves, rec_bishop)]
+#[kani::stub(crate::movegen::MoveGenerator::compute_rook_moves, rec_rook)]
+#[kani::stub(crate::movegen::MoveGenerator::compute_queen_moves, rec_queen)]
+#[kani::stub(std::vec::Vec::push, stub_vec_push)]
+fn c01_k0_pseudo_legal_runs_all_six_generators() {
+    unsafe {
+        SEQ = [0; 32];
+    }
+    let mut p = [0u64; 16];
+    p[6] = bit(4);
+    p[14] = bit(60);
+    let state = State::new(board_from(&p), any_color(), any_rights(), None, Clock { halfmove_clock: 0, fullmove_number: 1 });
+    let mut result: Vec<PseudoLegalMove> = Vec::with_capacity(16);
+    // stale content must be discarded
+    result.push(PseudoLegalMove::new(Move::by_castling(Color::Black, Side::Queen)));
+    MoveGenerator::compute_psuedo_legal_moves_into(&state, &mut result);
+    let z = unsafe { SEQ };
+    assert!(z[0] == 6 && result.len() == 6);
+    // each of the six generators exactly once (the order is immaterial to the set of moves)
+    let mut seen = [false; 7];
+    let mut i = 1;
+    while i <= 6 {
+        assert!(z[i] >= 1 && z[i] <= 6 && !seen[z[i] as usize]);
+        seen[z[i] as usize] = true;
+        i += 1;
+    }
+    kani::cover!(true, "reachable");
+}
+
+// =====================================================================================================================
 // K4: the legality filter
 // =====================================================================================================================
 
